@@ -412,6 +412,36 @@ def feq(a, b, tol=TOL_TAB):
     return a == b or abs(a - b) <= tol * (1.0 + max(abs(a), abs(b)))
 
 
+def _conform_trainables_flat(ref, m, exp):
+    """After a view-level delete_trainables that cut through shared parameters the list structure is the library's
+    choice: compare the multiset of (key, rows written, value), and the library's own list consistency."""
+    out = []
+    if len(m.trainable_params) != len(m.indices_set_by_trainables):
+        return [f"{len(m.trainable_params)} trainable_params but {len(m.indices_set_by_trainables)} index arrays"]
+    got = []
+    for j, (p, inds) in enumerate(zip(m.trainable_params, m.indices_set_by_trainables)):
+        key = next(iter(p.keys()))
+        vals = np.asarray(next(iter(p.values())), dtype=float).reshape(-1).tolist()
+        inds = np.asarray(inds).astype(int)
+        if inds.ndim != 2 or inds.shape[0] != len(vals):
+            out.append(f"trainable {j} ({key}) has {len(vals)} values for index array of shape {inds.shape}")
+            continue
+        nrows = ref.n if key in ref.cols else len(ref.edges)
+        for row, v in zip(inds.tolist(), vals):
+            got.append((key, sorted(set((int(i) % nrows) if i < 0 else int(i) for i in row)), v))
+    want = [(e["key"], sorted(g), v) for e in exp["trainables"] for g, v in zip(e["groups"], e["vals"])]
+    if out:
+        return out
+    if len(got) != len(want):
+        return [f"{len(got)} trainable parameters, expected {len(want)}"]
+    got.sort()      # which survivor comes first in the list is the library's choice too
+    want.sort()
+    for j, (a, b) in enumerate(zip(got, want)):
+        if a[0] != b[0] or a[1] != b[1] or not feq(a[2], b[2], 1e-9):
+            out.append(f"trainable parameter {j}: {a} expected {b}")
+    return out
+
+
 def conform(ref, m, tol=TOL_TAB):
     """Differences between RefModule's prediction and the module's public tables (semantic content)."""
     out = []
@@ -475,7 +505,9 @@ def conform(ref, m, tol=TOL_TAB):
             want_arr = np.asarray([a for _, a in lst], dtype=float)
             if arr.shape != want_arr.shape or not np.array_equal(arr, want_arr):
                 out.append(f"externals[{k}] values differ (shape {arr.shape} vs {want_arr.shape})")
-    if len(m.trainable_params) != len(exp["trainables"]) or len(m.indices_set_by_trainables) != len(exp["trainables"]):
+    if any(e.get("split") for e in exp["trainables"]):
+        out += _conform_trainables_flat(ref, m, exp)
+    elif len(m.trainable_params) != len(exp["trainables"]) or len(m.indices_set_by_trainables) != len(exp["trainables"]):
         out.append(f"{len(m.trainable_params)} trainables, expected {len(exp['trainables'])}")
     else:
         for j, (p, inds, e) in enumerate(zip(m.trainable_params, m.indices_set_by_trainables, exp["trainables"])):
